@@ -16,7 +16,7 @@
   tables (any descriptors open, any limit) and all redirection lists.
 -/
 import YashModel.Redir.Internal
-import YashModel.Redir.World
+import YashModel.Redir.WorldInv
 namespace YashModel.Redir
 open YashModel.Generated.RedirConsts
 
@@ -112,6 +112,18 @@ theorem command_restores (w : World) (t : FdTable) (k : Kind) (rs : List Redir) 
         split
         · next heq => rw [heq]; exact hfree.symm
         · next hne => exact hframe fd' hne
+  | guardUndo =>
+    simp only
+    have hne : (Kind.guardUndo == Kind.guardKeep) = false := by decide
+    simp only [hne, Bool.false_and, Bool.false_eq_true, ↓reduceIte]
+    exact hu
+  | guardKeep =>
+    simp only
+    cases he : (performRedirs worldOracle w t rs).err with
+    | none => exact absurd he (h rfl)
+    | some e =>
+      simp only [Option.isNone_some, Bool.and_false, Bool.false_eq_true, ↓reduceIte]
+      exact hu
   | special | colon | regular | func | brace | notFound | paren | funcRet | external | execBadOption =>
     simp only
     cases he : (performRedirs worldOracle w t rs).err with
@@ -128,7 +140,7 @@ theorem exec_persists (w : World) (t : FdTable) (k : Kind) (rs : List Redir) (pr
     (runCommand w t k rs prev).t =
       preserveRedirs (performRedirs worldOracle w t rs).t (performRedirs worldOracle w t rs).saved := by
   unfold runCommand
-  cases k <;> simp [Kind.isExec] at hk <;> simp only [h, endOrGoOn_t]
+  cases k <;> simp [Kind.isExec] at hk <;> simp only [h, endOrGoOn_t] <;> simp
 
 -- non-vacuity: interactive `exec nosuchcmd 4>b` keeps descriptor 4 on b and goes on with 127;
 -- the non-interactive shell ends there with the same table
@@ -286,6 +298,89 @@ theorem cloexec_untouched (o : Oracle W) (w : W) (t : FdTable) (rs : List Redir)
 
 example : stdTable.isCloexec 1 = false ∧
     ((stdTable.put 10 (some ⟨0, true⟩)).isCloexec 10 = true) := by decide
+
+/-! ### nothing but the targets; the loop observed item by item -/
+
+/-- ★ a redirection list — successful or stopped part-way, for every oracle — changes no descriptor
+    other than the targets it names and the slots (≥ 10, `internal_fds`) of the saved copies the guard
+    holds; in particular every descriptor below 10 that is not named keeps its entry, and the limit
+    is never touched -/
+theorem only_targets_change (o : Oracle W) (w : W) (t : FdTable) (rs : List Redir) :
+    (performRedirs o w t rs).t.limit = t.limit ∧
+    (∀ fd, (∀ r ∈ rs, r.fd ≠ fd) → (∀ s ∈ (performRedirs o w t rs).saved, s.save ≠ some fd) →
+      (performRedirs o w t rs).t.get fd = t.get fd) ∧
+    (∀ fd, (∀ r ∈ rs, r.fd ≠ fd) → fd < minInternalFd → (performRedirs o w t rs).t.get fd = t.get fd) := by
+  refine ⟨performRedirs_limit o w t rs, fun fd h1 h2 => performRedirs_frame o w t rs fd h1 h2, fun fd h1 hlt => ?_⟩
+  apply performRedirs_frame o w t rs fd h1
+  intro s hs hsv
+  exact absurd (internal_fds o w t rs s hs fd hsv).2.1 (Nat.not_le.mpr hlt)
+
+-- non-vacuity: `>a 2>&1` leaves descriptor 0 alone and changes 1 and 2
+example : let g := performRedirs worldOracle (stdWorld false) stdTable [⟨1, .file .fileOut 3⟩, ⟨2, .dup false (.fd 1)⟩]
+    g.t.get 0 = stdTable.get 0 ∧ g.t.get 1 ≠ stdTable.get 1 ∧ g.t.get 2 ≠ stdTable.get 2 := by decide
+
+/-- ★ what the harness sees when it looks at the process table after every `perform_redir` call:
+    one state per item tried (the successful ones and the failing one), state `i` being exactly what
+    `performRedirs` makes of the first `i+1` items (so `left_to_right` applies to every prefix), and
+    the last one being the state the guard is undone / preserved from -/
+theorem steps_are_prefixes (o : Oracle W) (w : W) (t : FdTable) (rs : List Redir) :
+    (performSteps o w t rs).length =
+      (performRedirs o w t rs).saved.length + (if (performRedirs o w t rs).err.isSome then 1 else 0) ∧
+    (∀ i p, (performSteps o w t rs)[i]? = some p → i < rs.length ∧
+      p = ((performRedirs o w t (rs.take (i+1))).w, (performRedirs o w t (rs.take (i+1))).t)) ∧
+    (rs ≠ [] → (performSteps o w t rs).getLast? =
+      some ((performRedirs o w t rs).w, (performRedirs o w t rs).t)) :=
+  ⟨performSteps_length o w t rs, fun i p h => performSteps_prefix o w t rs i p h, performSteps_last o w t rs⟩
+
+-- non-vacuity: three items, the third fails: three states are recorded, two copies are held
+example : (performSteps worldOracle (stdWorld false) stdTable
+      [⟨1, .file .fileOut 3⟩, ⟨2, .dup false (.fd 1)⟩, ⟨0, .file .fileIn 5⟩]).length = 3 ∧
+    (performRedirs worldOracle (stdWorld false) stdTable
+      [⟨1, .file .fileOut 3⟩, ⟨2, .dup false (.fd 1)⟩, ⟨0, .file .fileIn 5⟩]).saved.length = 2 := by decide
+
+/-- ★ at every one of these intermediate states (not only in the table the command finally sees)
+    whatever is CLOEXEC was CLOEXEC before the list started or is at or above `MIN_INTERNAL_FD` -/
+theorem steps_internal (o : Oracle W) (w : W) (t : FdTable) (rs : List Redir) :
+    ∀ p ∈ performSteps o w t rs, ∀ fd, p.2.isCloexec fd = true → t.isCloexec fd = true ∨ minInternalFd ≤ fd := by
+  intro p hp fd hc
+  obtain ⟨i, hi⟩ := List.getElem?_of_mem hp
+  obtain ⟨_, hpe⟩ := performSteps_prefix o w t rs i p hi
+  rw [hpe] at hc
+  rcases internal_only o w t (rs.take (i+1)) fd hc with h1 | ⟨s, hs, hsv⟩
+  · exact .inl h1
+  · exact .inr (internal_fds o w t (rs.take (i+1)) s hs fd hsv).2.1
+
+/-- ★ an expansion error in a redirection operand (`<${u?}`, or a command substitution that cannot get
+    its pipe) abandons the command whatever its kind — `Handle for redir::Error` delegates the
+    `Expansion` cause to the handler of expansion errors: the non-interactive shell ends there with 2,
+    the interactive one goes on with `$?` = 2, the body does not run — and the table is the one the
+    command found (the guard is dropped on the way out).  The two kinds that perform their
+    redirections in a subshell (`empty`, `assign`) and the harness's own guard driver are the
+    exceptions: the error stays in the child / in the built-in. -/
+theorem expansion_error_abandons_command (w : World) (t : FdTable) (k : Kind) (rs : List Redir) (prev : Nat)
+    (hw : WF t) (hk : k ≠ .empty ∧ k ≠ .assign ∧ k ≠ .guardUndo ∧ k ≠ .guardKeep)
+    (he : (performRedirs worldOracle w t rs).err = some .expansion) :
+    (runCommand w t k rs prev).during = none ∧
+    (w.interactive = false → (runCommand w t k rs prev).exited = some 2) ∧
+    (w.interactive = true → (runCommand w t k rs prev).status = some 2 ∧ (runCommand w t k rs prev).exited = none) ∧
+    (runCommand w t k rs prev).t.limit = t.limit ∧ ∀ fd, (runCommand w t k rs prev).t.get fd = t.get fd := by
+  have hr := command_restores w t k rs prev hw (fun _ h => by rw [he] at h; cases h)
+  have htr : runCommand w t k rs prev =
+      endOrGoOn ((performRedirs worldOracle w t rs).w.message (performRedirs worldOracle w t rs).t)
+        (undoRedirs (performRedirs worldOracle w t rs).t (performRedirs worldOracle w t rs).saved) 2 [] := by
+    obtain ⟨h1, h2, h3, h4⟩ := hk
+    cases k <;> simp_all [runCommand]
+  have hi : ((performRedirs worldOracle w t rs).w.message (performRedirs worldOracle w t rs).t).interactive =
+      w.interactive := by
+    rw [message_interactive]; exact performRedirs_interactive w t rs
+  rw [htr] at hr ⊢
+  refine ⟨endOrGoOn_during' .., fun hf => ?_, fun ht => ?_, hr⟩
+  · simp [endOrGoOn, hi, hf]
+  · simp [endOrGoOn, hi, ht]
+
+-- non-vacuity: `fds >a <${u?}` in a non-interactive shell
+example : (performRedirs worldOracle (stdWorld false) stdTable [⟨1, .file .fileOut 3⟩, ⟨0, .expErr⟩]).err = some .expansion ∧
+    (runCommand (stdWorld false) stdTable .regular [⟨1, .file .fileOut 3⟩, ⟨0, .expErr⟩]).exited = some 2 := by decide
 
 /-! ### descriptors the shell opens for itself outside the guard -/
 
